@@ -475,3 +475,24 @@ PROPS["C14"]["level_text"] = (
     "limits suite on the real server: admission, refusal bytes, peak executing handlers under a parked modulator, and the manager's own counters and "
     "pool occupancy (hook H2) after clean, mid-frame, mid-payload and garbage closes.")
 PROPS["C14"]["rule"] = SRV_RULE + "; limits suite: max_connections 0..6, max_inflight 1..5, opens beyond the limit, bursts of 1..limit+3 pipelined JOINs in one write under a parked modulator, releases, four kinds of close, counters compared after every step"
+
+
+# C06: the S2M / M2S links (handshake, shared secret, dispatch tables regenerated from the match arms), `links` suite on the real dispatchers
+PROPS["C06"]["theorems"] = ["Narwhal.Theorems.C06", "Narwhal.Theorems.C06Links"]
+PROPS["C06"]["audit_files"] = list(PROPS["C06"]["audit_files"]) + ["Narwhal/Model/Links.lean"]
+PROPS["C06"]["expect_theorems"] = list(PROPS["C06"]["expect_theorems"]) + [
+    "Narwhal.Links.dispatch_table_ok", "Narwhal.Links.C06_link_pre_auth_inert", "Narwhal.Links.C06_link_secret_exact",
+    "Narwhal.Links.C06_link_state_monotone", "Narwhal.Links.C06_link_run_inert"]
+PROPS["C06"]["suites"]["links"] = {"kind": "lines", "nvh_suite": "links", "driver_suite": "links", "op_prefixes": ["k "],
+                                   "cases": {"quick": 400, "thorough": 8000}, "oracle_tags": ["C06"]}
+PROPS["C06"]["level_text"] = (
+    "Proved in Lean. C2S: before CONNECT resp. IDENTIFY/AUTH every other frame yields one ERROR + close and changes neither channels, index nor "
+    "router; handshake steps never touch channel state; after authentication CONNECT/IDENTIFY/AUTH are refused. S2M / M2S: for every message kind "
+    "and parameter value an unauthenticated link reaches no operational handler — everything but the acknowledgement of the link's own CONNECT with "
+    "version 1 and (when one is configured) exactly the configured secret is a refusal that closes the link; an authenticated link stays "
+    "authenticated and refuses a second CONNECT. The dispatch tables (which kinds each state of each link type accepts), the shape of the secret "
+    "and version tests and the engine's state-order assertion are regenerated from the match arms of the source on every run and re-decided by the "
+    "kernel. Tied by the srv suite (C2S) and the links suite: all 45 kinds with valid parameters plus CONNECT variants (versions 0/1/2/65535, secrets "
+    "absent / empty / proper prefix / one character short / extended / other case / wrong / right) against the real S2M and M2S dispatchers, with a "
+    "recording modulator and the private-payload channel watching for effects.")
+PROPS["C06"]["rule"] = SRV_RULE + "; links suite: per case one link type and configured secret, 2-5 connections, 2-6 frames each"
